@@ -27,7 +27,8 @@ from checks import c13_gro_roundtrip as c13
 PROPERTY = "C14"
 LEVEL = "fault_enumeration"
 RULE = ("complete files: generated record lists (1..40 atoms quick, ..300 thorough; velocities on/off; atom count "
-        "declared or back-filled; position formats; boxes) written by the library writer, and the 14 intact shipped "
+        "declared or back-filled; position formats; boxes) written by the library writer - for a third of them also the "
+        "same file with CRLF line ends - and the 14 intact shipped "
         ".gro files. Faults, enumerated exhaustively per file: every state of the output after each low-level "
         "write/seek of the writer and after every partial write (crash states), and every byte-level prefix. One "
         "unit = one (file, fault) pair; non-trivial = the cut / crash falls inside the count line or the atom block. "
@@ -156,7 +157,7 @@ def crash_states(log):
             pos = arg
             out.append(("after op %d (seek %d)" % (i, arg), bytes(buf), i > box_op))
         elif op == "write":
-            data = arg.encode("ascii")
+            data = arg.encode("utf-8")
             # partial writes are enumerated for appends only (they are byte-level truncations of the
             # output so far); the in-place back-fill of the count is one operation of the statement's
             # crash model ("between the steps of close") and is not torn
@@ -203,6 +204,19 @@ def check_generated(case):
         if len(content) > header_end and not box_done:
             nt += 1
     n2, nt2, hist = enumerate_prefixes(data, complete, hist=hist)
+    if case.get("crlf"):
+        # the same complete file with CRLF line ends (as written on / copied from another platform)
+        crlf = data.replace(b"\n", b"\r\n")
+        cpath = env.fresh_path(".gro")
+        with open(cpath, "wb") as f:
+            f.write(crlf)
+        kind, ccomplete = try_read(cpath)
+        if kind != "ok" or ccomplete != complete:
+            raise PropertyViolation("complete-file", "the complete file with CRLF line ends is not read like the LF file: %r"
+                                    % (ccomplete if kind != "ok" else "records differ",), cls="complete-file:crlf")
+        n3, nt3, hist = enumerate_prefixes(crlf, complete, hist=hist)
+        n2 += n3
+        nt2 += nt3
     # part-way through closing: with a declared count, close() after fewer records raises -
     # what it leaves behind must not read as a system either
     if case["declare"] and len(case["records"]) >= 2:
@@ -233,7 +247,8 @@ def check_generated(case):
             nt += 1
     return {"units": (n + n2, nt + nt2),
             "classes": ["declared" if case["declare"] else "backfilled", "vel" if case["vel"] else "novel",
-                        "fmt:%s" % ("default" if case["format"] is None else "custom")] +
+                        "fmt:%s" % ("default" if case["format"] is None else "custom"),
+                        "crlf+lf" if case.get("crlf") else "lf"] +
                        ["outcome:" + k for k in hist],
             "sample": {"n_atoms": len(case["records"]), "declare": case["declare"], "vel": case["vel"],
                        "format": case["format"], "file_bytes": len(data), "crash_states": n, "prefixes": n2,
@@ -245,6 +260,7 @@ def generated_case(draw, tier):
     case = draw(c13.case_strategy())
     limit = 300 if tier == "thorough" else 40
     case["records"] = case["records"][:limit]
+    case["crlf"] = draw(st.integers(0, 2)) == 0
     # numbers beyond five digits are C13's subject; keep files plain here
     return case
 
